@@ -696,7 +696,7 @@ class CallGraph:
         return {a for a, bs in self.edges.items() if target in bs}
 
 
-def inline_module_helpers(fx, body, max_nodes=400):
+def inline_module_helpers(fx, body, max_nodes=400, methods=False):
     """A copy of `body` whose HIR has the calls of small free functions of the SAME module replaced by a block that binds the
     parameters to the arguments and runs the helper's body (locals renumbered), so that a structural analysis of one function
     still sees the code a refactoring moved into a private helper next to it. Helpers that are used as plain utilities by the
@@ -722,10 +722,22 @@ def inline_module_helpers(fx, body, max_nodes=400):
         if not isinstance(node, dict):
             return node
         out = {k: rewrite(v, depth) for k, v in node.items()}
-        if out.get("k") == "Call" and depth < 2:
-            d = callee_def(out) or ""
-            hb = fx.body(d) if d.startswith(mod) and d != body["def"] else None
-            if hb is not None and hb.get("hir") and not hb.get("impl_self") and str(hb.get("kind", "")).lower() == "fn":
+        is_call = out.get("k") == "Call"
+        is_self_method = out.get("k") == "MethodCall" and methods and body.get("impl_self")
+        if (is_call or is_self_method) and depth < 2:
+            d = (callee_def(out) if is_call else (out.get("def") or "")) or ""
+            hb = None
+            if is_call and d.startswith(mod) and d != body["def"]:
+                hb = fx.body(d)
+                if hb is not None and (hb.get("impl_self") or str(hb.get("kind", "")).lower() != "fn"):
+                    hb = None
+            elif is_self_method:
+                cand = fx.body(d) or fx.body(strip_generics(d))
+                if cand is not None and cand.get("impl_self") == body.get("impl_self") and cand["def"] != body["def"] and not cand.get("impl_trait"):
+                    hb = cand
+                    out = dict(out)
+                    out["args"] = [out["recv"]] + list(out.get("args", []))
+            if hb is not None and hb.get("hir"):
                 hir = hb["hir"]
                 params = hir["params"]
                 if len(params) == len(out.get("args", [])) and all(p.get("p") == "Bind" for p in params) and sum(1 for _ in walk(hir["value"])) <= max_nodes:
